@@ -9,6 +9,7 @@ import (
 	"time"
 
 	"github.com/dapr/kit/events/broadcaster"
+	"github.com/dapr/kit/verifhook"
 )
 
 // Step is one director action of a scenario.
@@ -38,7 +39,7 @@ type Scenario struct {
 
 // Ev is one observable event. Position in the trace is the order of logging (under one mutex).
 type Ev struct {
-	K string `json:"k"` // bcall bret scall sret cancel recv ccall cret
+	K string `json:"k"` // bcall bacq bret scall sret cancel recv ccall cret
 	A int    `json:"a"` // ticket / tag
 	V int    `json:"v"` // value (bcall, recv)
 }
@@ -47,6 +48,8 @@ func (e Ev) Line() string {
 	switch e.K {
 	case "bcall":
 		return fmt.Sprintf("ev k=bcall v=%d", e.V)
+	case "bacq":
+		return fmt.Sprintf("ev k=bacq v=%d", e.V)
 	case "bret":
 		return fmt.Sprintf("ev k=bret t=%d", e.A)
 	case "sret":
@@ -229,6 +232,21 @@ func Execute(sc Scenario, deadline time.Duration) Outcome {
 	w := &world{b: broadcaster.New[int](), stop: make(chan struct{})}
 	var out Outcome
 	out.StuckAt = -1
+	// hook points of this Broadcaster only (goroutines leaked by an earlier stuck scenario belong
+	// to another Broadcaster and are ignored)
+	verifhook.Set(func(name string, args ...any) {
+		if len(args) == 0 || args[0] != any(w.b) {
+			return
+		}
+		switch name {
+		case "broadcaster.broadcast.locked":
+			// Broadcast holds the lock: the position of this event is the lock order
+			w.mu.Lock()
+			w.log(Ev{K: "bacq", V: args[1].(int)})
+			w.mu.Unlock()
+		}
+	})
+	defer verifhook.Set(nil)
 	for i, st := range sc.Steps {
 		switch st.Op {
 		case "sub":
